@@ -125,7 +125,7 @@ func verifH_C14_errors() {
 		}
 		verifTag("stmt", "unknown-table")
 		if err == nil && name == strings.ToUpper(t.name) {
-			verifReach("other-spelling-accepted")
+			verifTag("outside", "other-spelling-accepted")
 			return
 		}
 	case 3:
